@@ -1331,6 +1331,52 @@ class ResponseHistory(Suite):
         return Info(nt, [case['stack']] + sorted('op:' + k for k in kinds) + (['render_then_mutate_then_reassign'] if nt else []))
 
 
+class BigDocs(Suite):
+    """Documents beyond the moderate range through the same round trip as `roundtrip`: lists / mappings of 5000-60000 items,
+    one string of 70 000-1 100 000 characters (multi-byte, escape-worthy), a form with 3000 names and a form value of
+    200 000 characters; bodies of 64 KiB-2 MiB delivered to ASGI in events of 4096 / 65536 bytes or at once."""
+
+    name = 'big_docs'
+    exhaustive = True
+    budget = {'quick': 1, 'thorough': 1}
+
+    def cases(self, tier):
+        for shape, n in (('list', 5000), ('list', 60000), ('dict', 5000), ('string', 70001), ('string', 1100000), ('nested', 3000),
+                         ('form_names', 3000), ('form_value', 200000)):
+            if tier == 'quick' and n in (60000, 1100000):
+                continue
+            for chunks in ([], [4096], [65536, 1]):
+                for cl in (True, False):
+                    yield {'shape': shape, 'n': n, 'chunks': chunks, 'cl': cl}
+
+    def run(self, case):
+        shape, n = case['shape'], case['n']
+        if shape == 'list':
+            doc = ['item-%d \u00e9' % i for i in range(n)]
+        elif shape == 'dict':
+            doc = {'key-%d' % i: [i, 'v\u20ac', None] for i in range(n)}
+        elif shape == 'string':
+            doc = {'s': ('ab\u00e9\u20ac\U0001f600"\\\n' * (n // 8 + 1))[:n]}
+        elif shape == 'nested':
+            doc = [{'id': i, 'tags': ['t%d' % (i % 7)] * 3, 'name': 'n' * (i % 50)} for i in range(n)]
+        elif shape == 'form_names':
+            doc = {'name%d' % i: 'v%d' % i for i in range(n)}
+        else:
+            doc = {'a': ('x y&=+%\u00e9' * (n // 8 + 1))[:n], 'b': 'short'}
+        is_form = shape.startswith('form')
+        full = {'kind': 'form' if is_form else 'json', 'doc': json.dumps(doc), 'ct': 'form' if is_form else 'json', 'chunks': case['chunks'],
+                'tail_empty': False, 'cl': case['cl']}
+        if is_form:
+            full['form_csv'] = False
+        try:
+            RoundTrip().run(full)
+        except Violation as v:
+            d = v.detail
+            raise Violation(v.kind, '%s ... %s\n  compact case=%r' % (d[:300], d[-300:], case))
+        return Info(True, ['shape:' + shape, 'events:%r' % (case['chunks'] or 'single',), 'content_length' if case['cl'] else 'no_content_length'])
+
+
+
 class ResponseHistoryEnum(Suite):
     """EVERY history of at most 6 (thorough: 8) operations on one response object out of: media = document A / document B /
     None, change the document in place and assign the same object again, data = bytes / None, render_body() — on
@@ -1354,5 +1400,5 @@ class ResponseHistoryEnum(Suite):
 
 
 
-SUITES = [RoundTrip(), History(), HandlerFailure(), Truncations(), ResponseHistory(), ResponseHistoryEnum()]
+SUITES = [RoundTrip(), BigDocs(), History(), HandlerFailure(), Truncations(), ResponseHistory(), ResponseHistoryEnum()]
 KNOWN = {}
